@@ -19,3 +19,24 @@ add("C20", "exploration", "exhaustive enumeration of the 10^7 id space + propert
     "The id <-> text/bytes bijection is enumerated completely for all 10^7 ids (plus borders); parsing of arbitrary text is searched with structured string generators against a hand-written reference grammar, panics are failures.",
     "Reference grammar = Rust u32 FromStr grammar after the 3-byte prefix; string space sampled, not exhausted.",
     "DESIGN.md section 4, C20")
+
+add("C04", "exploration", "property-based testing (proptest): all ordered term pairs x 8 algorithms x 3 kinds vs formulas evaluated in f64 on the reference model",
+    "Search over generated annotated ontologies; every ordered pair, algorithm and kind is compared with the documented formula computed from model quantities; NaN/range/dispatch/symmetry checked exactly or within stated tolerance.",
+    "Formula conventions pinned in DESIGN.md section 3 (GraphIC union without the terms, JC 0.8.3); tolerance 1e-4 relative; <=12 terms quick / 20 thorough.",
+    "DESIGN.md section 4, C04")
+add("C05", "exploration", "property-based testing (proptest): generated matrices / set pairs with a table-lookup user similarity vs funSimAvg/funSimMax/BMA definitions; cache differential",
+    "Search over generated (also non-square, empty, 1x40) matrices and over sequences of set pairs with asymmetric user-supplied similarities; cached vs uncached results compared bit for bit.",
+    "Definitions evaluated in f64, tolerance 1e-4; sets of <=8 terms over a flat 16-term ontology.",
+    "DESIGN.md section 4, C05")
+add("C10", "exploration", "property-based testing (proptest) + full id-space sweeps of generated ontologies vs set membership model",
+    "Search over generated id sets (dense/sparse/borders, duplicates) with targeted keys, and complete sweeps of all 10^7 ids plus 2^20 larger values on a generated fraction of the cases (>=16 ontologies per quick run); name lookups against string predicates on the facts.",
+    "Ids >= 10^7 cannot be added and are lookup keys only; <=20 terms quick / 60 thorough, <=6 records per kind.",
+    "DESIGN.md section 4, C10")
+add("C11", "exploration", "property-based testing (proptest): all ordered pairs of generated DAGs vs BFS distances and a path validity predicate",
+    "Search over generated graphs biased to chains with shortcuts, diamond ladders, several roots; distances compared with BFS reference, paths checked by a validity predicate (links, end point, length) so that ties are not misjudged.",
+    "Graphs of <=16 terms quick / 22 thorough (the library's recursive search is exponential on ladders).",
+    "DESIGN.md section 4, C11")
+add("C12", "exploration", "stateful property-based testing (proptest op sequences) vs BTreeSet model; set-algebra differential for operators and ancestor queries",
+    "Operation sequences and operand pairs of all relationship classes across the inline-storage limit, every constructor and ownership variant, compared with BTreeSet; ancestor queries of all term pairs compared with set algebra on the model closure.",
+    "all_union_* convention pinned to the doctests; ids from a 96-entry pool incl. u32 borders.",
+    "DESIGN.md section 4, C12")
